@@ -41,6 +41,30 @@ CLAIMS = {
          "Static necessary-condition check: every Config field, setter and exported option constant is resolved by object through its initialiser chain to one canonical bit; each bit keeps its consumers in both executors; entry-point shims delegate to ConfigDefault in order. Value-level 'no other effect' is not decided.",
          "Trusts go/types constant/object resolution and the frozen wiring tables (16 fields, 13 setters, consumer table). optdec ignoring UseUnicodeErrors is a recorded known finding (F-7).",
          "DESIGN.md §3.1, §4 C18"),
+ "C01": ("abstract interpretation of the jitdec IR compiler's source over the emitted IR template (go/cfg-equivalent path enumeration): label resolution, state-stack balance, depth tags; opcode totality",
+         "Static necessary-condition check of the decoder's compiled programs: on every Go-level path of every compile* function each emitted branch is pinned or handed on, the state stack is balanced on the emitted control flow, nesting is tagged, and every opcode has its handler. Decoded values, field-selection semantics (resolver) and natives are NOT decided.",
+         "Trusts the emitter-DSL model (add/chr/int/rtt/pin/rel/tag) and the branch-op table, which is re-derived from the x86 handlers on every run.",
+         "DESIGN.md §3.2 I0-I3, §4 C01"),
+ "C05": ("forward dataflow over emitted x86 templates (bytes proven available at the input cursor), go/cfg dataflow for raw-pointer reads, constant relations for the padded copy",
+         "Go/generator side only: every load of the JIT decoder templates through (IP)(IC) is covered by a bound check since IC last moved; every raw *(*byte) read in ast/decode.go and utils/skip.go is dominated by p < end; optdec parses a private copy with >= 64 padding bytes. Reads inside the native routines are NOT decided (byte arrays).",
+         "A handler's first access may rely on IC < IL established by the preceding lspace opcode. The natives' own SIMD loads and tails are out of reach of this technique in this sandbox.",
+         "DESIGN.md §4 C05"),
+ "C06": ("pool typestate with alias tokens, path-sensitive over go/cfg; copy-before-retain instances; output-space budget dataflow over the emitted x86 encoder templates",
+         "Static necessary-condition check: nothing is used after it was put back to a pool and no pooled backing array escapes to the caller; the []byte entry points copy before retaining; every store / native writer of the JIT encoder is covered by a reservation (check_size) since RL last advanced. That natives honour the capacity they are told is NOT decided.",
+         "Alias summaries: append/HTMLEscape/CorrectWith/Quote results alias their first argument; runtime-sized reservations (check_size_r) are trusted to be sized correctly. F-15 (json.Number ignores CopyString) is outside these rules and is documented only.",
+         "DESIGN.md §3.3, §3.2 A1, §4 C06"),
+ "C07": ("constant/layout relations and guard-bound agreement on emitted templates; clamp rules on the error-excerpt arithmetic; reset-at-pool-boundary rule; depth-tag rule",
+         "Static necessary-condition check of the guards that turn hostile input into errors: stack bounds equal array sizes in every executor (encoder JIT/VM, jitdec, generic decoder), pooled stacks are reset, nesting is tagged at compile time, error excerpts are clamped for any position. Faults inside generated/native code and native termination are NOT decided.",
+         "Recursion in ast.Preorder (F-14) is documented as a finding but not decided by a rule in this round.",
+         "DESIGN.md §4 C07"),
+ "C09": ("memo-key completeness and batch-association rules (AST), RCU identity rules",
+         "Static necessary-condition check: no compile input outside the cache key, batch-loaded code associated by an injective key / position, pretouch loops in lock-step, cache compares type pointers. Observational equality of recompiled codecs is NOT decided.",
+         "The encoder cache being keyed without the addressability flag is a recorded known finding (F-6).",
+         "DESIGN.md §3.5 F-memo/F-batch, §4 C09"),
+ "C20": ("def-use / must-order rules on the three retry loops (Go AST and emitted x86 template) and utf8.CorrectWith",
+         "Restart-protocol clause only: produced-count added before the result test, complement, additive cursor, grow, re-entry with the advanced cursor; copy cursor resynchronised and position list reset in CorrectWith. The escape tables, surrogate handling and the UTF-8 automaton are native and NOT decided.",
+         "Trusts the natives' reporting convention (negative result = ~consumed, dn = produced).",
+         "DESIGN.md §4 C20"),
 }
 
 NOT_YET = {}
